@@ -179,6 +179,28 @@ def h_resend_race(I, nsent, nsenders, with_heartbeat, bound):
     return [steps, [(x[0], x[1]) for x in wire(w.frames)]]
 
 
+def h_initial_logon(I, nlogout, bound):
+    """The initiator's first Logon (send_msg awaits on_state_change for LOGON_INITIAL_SENT) races
+    with further send_msg calls that are legal at that point (Logout)."""
+    first = I.int("next_out", 1, 99)
+    c = mk(I, first)
+    c._connection_state = CS.NETWORK_CONN_ESTABLISHED
+    c._connection_role = ConnectionRole.UNKNOWN
+    c._connection_was_active = False
+    w = YWriter()
+    c._socket_writer = w
+    tasks = [c.send_msg(FIXMessage(FMsg.LOGON, {98: 0, 108: 30}))] + [c.send_msg(FIXMessage(FMsg.LOGOUT)) for _ in range(nlogout)]
+    errs, steps = schedule(I, tasks, bound)
+    # a send may be refused (the Logon after a Logout already opened the dialogue): a refused send
+    # consumes no number and writes nothing - the numbering oracle covers that
+    from asyncfix.errors import FIXConnectionError
+    refused = sum(1 for e in errs if isinstance(e, FIXConnectionError))
+    I.check(len(w.frames) == len(tasks) - refused, "a refused send wrote a frame, or an accepted one did not")
+    oracle(I, c, w, [None if isinstance(e, FIXConnectionError) else e for e in errs], first, 0)
+    I.goal("scheduled")
+    return [steps, [x[0] for x in wire(w.frames)]]
+
+
 def h_gap_race(I, bound):
     """The reader task detects a gap (sends a ResendRequest, awaits drain and on_state_change)
     while an application task sends."""
@@ -201,6 +223,10 @@ def cells(tier):
                     goals=["scheduled"]))
     out.append(Cell("senders/3", lambda I: h_senders(I, 3, 10), dict(tasks="3 x send_msg", suspension_points="drain (FIFO)", next_out="symbolic in [1,99]"),
                     goals=["scheduled"]))
+    for nl in (1, 2):
+        out.append(Cell(f"initial-logon+{nl}-logout", (lambda I, nl=nl: h_initial_logon(I, nl, 12)),
+                        dict(tasks=f"send_msg(Logon) from NETWORK_CONN_ESTABLISHED + {nl} x send_msg(Logout)", suspension_points="on_state_change, drain", next_out="symbolic in [1,99]"),
+                        goals=["scheduled"]))
     out.append(Cell("gap-detection+2-senders", lambda I: h_gap_race(I, 14), dict(tasks="reader (gap -> ResendRequest) + 2 x send_msg",
                     suspension_points="drain, on_state_change"), goals=["scheduled"]))
     out.append(Cell("resend+1-sender", lambda I: h_resend_race(I, 2, 1, False, 16),
